@@ -56,7 +56,36 @@ fn alphabet(heavy: bool, refs: bool, derefs: bool) -> Vec<Tx> {
 /// Root liveness as a function of the history (a mirror of the model, for the alphabet rules only).
 fn live_counts(hist: &[Ev], rc_roots: bool, append_only: bool) -> BTreeMap<Vec<u8>, u64> {
 	let mut m: BTreeMap<Vec<u8>, u64> = BTreeMap::new();
+	// a tree whose reader lock is held stays live (its removal is postponed) until the lock is released
+	let mut locked: std::collections::BTreeSet<Vec<u8>> = Default::default();
+	let mut postponed: Vec<Vec<u8>> = vec![];
 	for e in hist {
+		match e {
+			Ev::Lock(_, k) =>
+				if m.contains_key(&k.bytes()) {
+					locked.insert(k.bytes());
+				},
+			Ev::Unlock(..) | Ev::Reopen => {
+				let release: Vec<Vec<u8>> = match e {
+					Ev::Unlock(_, k) => vec![k.bytes()],
+					_ => locked.iter().cloned().collect(),
+				};
+				for k in release {
+					locked.remove(&k);
+					let n = postponed.iter().filter(|p| **p == k).count() as u64;
+					postponed.retain(|p| *p != k);
+					if n > 0 {
+						if let Some(c) = m.get_mut(&k) {
+							*c = c.saturating_sub(n);
+							if *c == 0 {
+								m.remove(&k);
+							}
+						}
+					}
+				}
+			},
+			_ => (),
+		}
 		if let Ev::Commit(tx) = e {
 			for (_, op) in tx {
 				match op {
@@ -71,7 +100,9 @@ fn live_counts(hist: &[Ev], rc_roots: bool, append_only: bool) -> BTreeMap<Vec<u
 							}
 						},
 					Op::DerefTree(k) =>
-						if !append_only {
+						if !append_only && locked.contains(&k.bytes()) && m.get(&k.bytes()) == Some(&1) {
+							postponed.push(k.bytes());
+						} else if !append_only {
 							let kb = k.bytes();
 							if let Some(c) = m.get_mut(&kb) {
 								*c -= 1;
